@@ -362,8 +362,14 @@ def inline_pure_calls(res, fn, e: ast.expr, depth: int = 0, guards: bool = False
             if len(body) != 1 or not isinstance(body[0], ast.Return) or body[0].value is None:
                 return n
             env = {}
+            a_ = g.node.args
+            pos = a_.posonlyargs + a_.args
+            defaults = dict(zip([x.arg for x in pos[len(pos) - len(a_.defaults):]], a_.defaults))
+            defaults.update({k.arg: d for k, d in zip(a_.kwonlyargs, a_.kw_defaults) if d is not None})
             for pn in g.params:
                 a = arg_for(n, g, pn)
+                if a is None and isinstance(defaults.get(pn), ast.Constant):
+                    a = defaults[pn]              # an omitted argument takes its (constant) default
                 if a is not None:
                     env[pn] = a
             return inline_pure_calls(res, g, subst(body[0].value, env), depth + 1, guards)
